@@ -489,6 +489,8 @@ def run(ctx, led):
              "finish_clause after the sink saw it (WHO-MAY + MUST-PASS)", g6, ctx)
     run_rule(led, "G7", "finish_clause is reached from exactly the two `0` arms; parse_chunk never "
              "touches the clause buffer", g7, ctx)
+    from . import C15 as _C15
+    run_rule(led, "G13", "WHO-MAY-DROP-SIGN: only the code→literal translation takes the absolute value of a DIMACS code (shared with C15-W11)", _C15.w11, ctx)
     run_rule(led, "G8", "status lines only inside the arms of the solve result, UNSAT only after the proof is concluded; every hard clause reaches the solver", g8, ctx)
     from . import C10 as _C10
 
